@@ -1,7 +1,7 @@
 //! C10 — numbers.  Drives the REAL pipeline on generated literal / operator programs and prints, per case,
 //! what the real Core IR and the real goast contain.  Streams (second TSV column):
 //!   LIT   `let x[: τ] = <digits><suffix>;`          Core `EPrim` + goast `VarDecl` value + printed text
-//!   PAT   `match (x: τ) { <digits><suffix> => … }`  goast `switch` case literal (oracle only)
+//!   PAT   `match (x: τ) { <digits><suffix> => … }`  goast `switch` case literal
 //!   OP    one operator × type × operand shape        goast operator node, operand kinds/types, printed symbol
 //!   FLT   float literals (validation only)           Core bits vs Rust's correctly rounded parse
 //!   PARSE arbitrary strings through `str::parse::<iN/uN>` (the std function check.rs calls)
@@ -332,7 +332,7 @@ fn lit_case(out: &mut Out, digits: &str, sfx: &str, annot: &str) {
     out.case("LIT", l(vec![a("lit"), a(digits), a(if sfx.is_empty() { "-" } else { sfx }), a(if annot.is_empty() { "-" } else { annot })]), &res, &src);
 }
 
-// ------------------------------------------------------------------ PAT (oracle only)
+// ------------------------------------------------------------------ PAT
 fn pat_case(out: &mut Out, digits: &str, sfx: &str, scrut: &str) {
     let src = format!(
         "fn f(x: {t}) -> int32 {{\n    match x {{\n        {d}{s} => 1,\n        _ => 0,\n    }}\n}}\nfn main() -> unit {{\n    let _ = string_println(int32_to_string(f(0{sx})));\n    ()\n}}\n",
